@@ -6,6 +6,14 @@ Stage C  the REAL enum classes against the Lean model on operation scripts.  Enu
          mutated by lenient conversions, so every script runs in a freshly forked child of this process (the parent
          imports the package once and never converts anything).
 Stage D  the property statement evaluated directly on what the real classes answered.
+
+Operations of an enum script (one token each; the Lean driver command `dynenum <defs> <ops>` answers in the same format):
+  c<int>  E(<int>, raise_on_unrecognized=False)     s<int>  E(<int>, raise_on_unrecognized=True)    d<int>  E(<int>)
+  G<int>  E[<int>]                                   q<b>:<int>  E(numpy.uint<b>(<int>), raise_on_unrecognized=False)
+  a<b>:<int> / A<b>:<int>  AutoEnum(Int<b>ul, E).parse(bytes) lenient / EnumAdapter(..., raise_on_unrecognized=True).parse(bytes)
+  g<name> E[<name>]        n<name> / N<name>  E(<name>, raise_on_unrecognized=True / False)        i  list(E)     l  len(E)
+Answers: a member is NAME=value:U|R (U = is_unrecognized()), a list is comma separated, an exception is !<Type>.
+(d, G, A are the model's `s`; a, q are the model's `c`.)
 """
 import json
 import os
